@@ -3,6 +3,8 @@
 import json, os
 
 CHECKS = {
+ "C03": ("4.3", "Lean theorems: CheckLineLen reports a line iff some token of the statement on it starts beyond column 81, each line at most once; the NEWLINE token ending a line of visual width w (tab stops 4) is at column w+1 whatever precedes the line, hence a code line ending in a newline is reported iff w > 80; CheckLineLen runs after every matched primary; `//` and block-comment lines are reported iff their width exceeds 80 (first/interior/last line); the four counters are compared exactly at 25/5/4/5. That the counters equal the measured quantities is maintained by unported rules and decided by the boundary oracle at L-3..L+6 in generated contexts (partial)",
+         "Lean 4 proof (membership characterisation of the line-length scan + position spec) + rule-snapshot correspondence + boundary oracle"),
  "C04": ("4.4", "Lean theorems about cliRun (tail of main): one verdict per file in order, OK iff no Error-level diagnostic, exit 0 iff every file OK for every list of files (any length/order/repetition), first fatal file named with non-zero exit, empty run exits 0; tied to __main__.py by a byte-exact correspondence of stdout and exit status on the real main()",
          "Lean 4 proof (induction over the file list) + cli correspondence + CLI oracle"),
  "C05": ("4.5", "Lean theorem lex_total: the tokenizer model returns tokens and diagnostics for every string (no KeyError, fuel never exhausted: every round consumes input) — full strength for part (a); part (b) (whole pipeline) is decided by the engine-loop theorems (progress/termination of Registry.run for any rule table whose rules return) plus an oracle over token prefixes and token edits of conforming/violating programs with crash/hang signatures; unported rules are assumptions",
